@@ -74,6 +74,10 @@ type Interp struct {
 	// AtomDeps records, for every atom that abstracts joined values (loop-carried
 	// values, joins too large to keep as gated terms), the atoms those values mentioned.
 	AtomDeps map[string]map[string]bool
+	// OnAccess, when set, is called for every operation that can panic at run time: kind is one of
+	// "index" (idx, length), "slice" (low, high, length; nil for absent bounds), "div" (divisor),
+	// "typeassert", "callvalue" (callee term), "invoke" (receiver term).
+	OnAccess func(fr *Frame, site ssa.Instruction, kind string, a, b, c *Term)
 	// OnStore, when set, is called for every store with a resolved pointer.
 	OnStore func(fr *Frame, site ssa.Instruction, ptr, val *Term)
 }
@@ -914,6 +918,11 @@ func (fr *Frame) execBlock(blk *ssa.BasicBlock, mem *Mem) {
 			mem.dropObject(o)
 			fr.set(x, Ptr(o, nil))
 		case *ssa.BinOp:
+			if in.OnAccess != nil && fr.record && (x.Op == token.QUO || x.Op == token.REM) {
+				if _, _, isInt, _ := basicInfo(x.Type()); isInt {
+					in.OnAccess(fr, x, "div", fr.operand(x.Y, mem), nil, nil)
+				}
+			}
 			fr.set(x, Bin(x.Op, fr.operand(x.X, mem), fr.operand(x.Y, mem), x.Type()))
 		case *ssa.UnOp:
 			a := fr.operand(x.X, mem)
@@ -937,6 +946,9 @@ func (fr *Frame) execBlock(blk *ssa.BasicBlock, mem *Mem) {
 			a := fr.operand(x.X, mem)
 			fr.set(x, &Term{Op: "makeiface", Args: []*Term{a}, T: x.X.Type()})
 		case *ssa.TypeAssert:
+			if in.OnAccess != nil && fr.record && !x.CommaOk {
+				in.OnAccess(fr, x, "typeassert", fr.operand(x.X, mem), nil, nil)
+			}
 			fr.set(x, fr.typeAssert(x, fr.operand(x.X, mem)))
 		case *ssa.MakeClosure:
 			var bs []*Term
@@ -958,9 +970,17 @@ func (fr *Frame) execBlock(blk *ssa.BasicBlock, mem *Mem) {
 			a := fr.operand(x.X, mem)
 			fr.set(x, Field(a, x.Field, x.Type()))
 		case *ssa.IndexAddr:
-			fr.set(x, in.indexAddr(fr.operand(x.X, mem), fr.operand(x.Index, mem), x.X.Type()))
+			xv, iv := fr.operand(x.X, mem), fr.operand(x.Index, mem)
+			if in.OnAccess != nil && fr.record {
+				in.OnAccess(fr, x, "index", iv, in.containerLen(xv, x.X.Type()), nil)
+			}
+			fr.set(x, in.indexAddr(xv, iv, x.X.Type()))
 		case *ssa.Index:
-			fr.set(x, Index(fr.operand(x.X, mem), fr.operand(x.Index, mem), x.Type()))
+			xv, iv := fr.operand(x.X, mem), fr.operand(x.Index, mem)
+			if in.OnAccess != nil && fr.record {
+				in.OnAccess(fr, x, "index", iv, in.containerLen(xv, x.X.Type()), nil)
+			}
+			fr.set(x, Index(xv, iv, x.Type()))
 		case *ssa.Lookup:
 			a, k := fr.operand(x.X, mem), fr.operand(x.Index, mem)
 			if _, isMap := x.X.Type().Underlying().(*types.Map); isMap {
@@ -971,9 +991,23 @@ func (fr *Frame) execBlock(blk *ssa.BasicBlock, mem *Mem) {
 				}
 				fr.set(x, v)
 			} else {
+				if in.OnAccess != nil && fr.record {
+					in.OnAccess(fr, x, "index", k, in.containerLen(a, x.X.Type()), nil)
+				}
 				fr.set(x, Index(a, k, x.Type()))
 			}
 		case *ssa.Slice:
+			if in.OnAccess != nil && fr.record {
+				xv := fr.operand(x.X, mem)
+				var lo, hi *Term
+				if x.Low != nil {
+					lo = fr.operand(x.Low, mem)
+				}
+				if x.High != nil {
+					hi = fr.operand(x.High, mem)
+				}
+				in.OnAccess(fr, x, "slice", lo, hi, in.containerLen(xv, x.X.Type()))
+			}
 			fr.set(x, in.sliceOp(fr, x, mem))
 		case *ssa.Extract:
 			fr.set(x, Extract(fr.operand(x.Tuple, mem), x.Index, x.Type()))
@@ -1473,6 +1507,9 @@ func (in *Interp) call(fr *Frame, x *ssa.Call, mem *Mem) (res *Term, noReturn bo
 
 	if cc.IsInvoke() {
 		recv := fr.operand(cc.Value, mem)
+		if in.OnAccess != nil && fr.record {
+			in.OnAccess(fr, x, "invoke", recv, nil, nil)
+		}
 		args = append(args, recv)
 		for _, a := range cc.Args {
 			args = append(args, fr.operand(a, mem))
@@ -1501,6 +1538,9 @@ func (in *Interp) call(fr *Frame, x *ssa.Call, mem *Mem) (res *Term, noReturn bo
 			callee = v
 		default:
 			ft := fr.operand(cc.Value, mem)
+			if in.OnAccess != nil && fr.record {
+				in.OnAccess(fr, x, "callvalue", ft, nil, nil)
+			}
 			switch ft.Op {
 			case "fn":
 				callee = ft.Fn
@@ -1609,4 +1649,21 @@ func (in *Interp) LoadAt(m *Mem, o *Object, p Path) *Term { return in.load(m, o,
 // ParamObj returns the object a pointer-typed root parameter points to.
 func (in *Interp) ParamObj(name string, elem types.Type) *Object {
 	return in.Obj("param:"+name, "param", elem)
+}
+
+// containerLen returns the length term of an indexable value.
+func (in *Interp) containerLen(x *Term, t types.Type) *Term {
+	switch u := t.Underlying().(type) {
+	case *types.Pointer:
+		if arr, ok := u.Elem().Underlying().(*types.Array); ok {
+			return Int(arr.Len())
+		}
+	case *types.Array:
+		return Int(u.Len())
+	case *types.Slice:
+		return Len(in.asSlice(x, t))
+	case *types.Basic:
+		return Len(x)
+	}
+	return Op("len", "", types.Typ[types.Int], x)
 }
